@@ -15,6 +15,18 @@ from ..util import typename
 from .base import Box, NamedBox
 
 
+def _operand(exp: Any, lean: bool = False) -> str:
+    # NOTE: in grammar text the operand of a name is one term: a sequence or
+    #   a choice built in code (the ANTLR translator) needs its parentheses
+    from .choice import Choice
+    from .syntax import Sequence
+
+    text = str(exp._pretty(lean=lean))
+    if isinstance(exp, Choice) or (isinstance(exp, Sequence) and len(exp.sequence) > 1):
+        return f'({text})'
+    return text
+
+
 @nodedataclass
 class Named(NamedBox):
     def __post_init__(self):
@@ -37,7 +49,7 @@ class Named(NamedBox):
     def _pretty(self, lean=False):
         if lean:
             return self.exp._pretty(lean=True)
-        return f'{self.name}={self.exp._pretty(lean=lean)}'
+        return f'{self.name}={_operand(self.exp, lean=lean)}'
 
 
 @nodedataclass
@@ -54,7 +66,7 @@ class NamedList(Named):
     def _pretty(self, lean=False):
         if lean:
             return self.exp._pretty(lean=True)
-        return f'{self.name}+={self.exp._pretty(lean=lean)!s}'
+        return f'{self.name}+={_operand(self.exp, lean=lean)}'
 
 
 @nodedataclass
@@ -67,7 +79,7 @@ class Override(Box):
     def _pretty(self, lean=False):
         if lean:
             return self.exp._pretty(lean=True)
-        return f'={self.exp._pretty(lean=lean)!s}'
+        return f'={_operand(self.exp, lean=lean)}'
 
 
 @nodedataclass
@@ -82,4 +94,4 @@ class OverrideList(Box):
     def _pretty(self, lean=False):
         if lean:
             return self.exp._pretty(lean=True)
-        return f'+={self.exp._pretty(lean=lean)!s}'
+        return f'+={_operand(self.exp, lean=lean)}'
